@@ -177,8 +177,8 @@ def ntop6_cases(rng, thorough):
                 else:
                     ws.append(0)
             out.add(b"".join(w.to_bytes(2, "big") for w in ws))
-    step = 1 if thorough else 1
-    for shape in range(0, 65536, step):            # zero / non-zero per byte
+    shapes = range(65536) if thorough else [rng.randrange(65536) for _ in range(6000)]
+    for shape in shapes:                           # zero / non-zero per byte
         for v in ([1, None] if thorough else [None]):
             out.add(bytes((v or rng.choice([1, 255, 16, rng.randrange(1, 256)])) if shape >> i & 1 else 0
                           for i in range(16)))
@@ -435,8 +435,8 @@ def main():
         rule="text->address: every byte string of length <= 2, every string of length <= 4 (thorough 5) over "
              "{0-9 a f A F : . % x NUL 0x80}, every string of length <= 7 over {0 1 2 5 .} and {0 1 f : . %}, of "
              "length <= 11 over {1 : .}, grammar-generated + mutated strings with and without %zone, through "
-             "uv_inet_pton, uv_ip4_addr, uv_ip6_addr; address->text: all 2^8 group shapes x value classes, all "
-             "2^16 byte shapes, IPv4-embedded neighbours, random; each through uv_inet_ntop/uv_ipX_name/"
+             "uv_inet_pton, uv_ip4_addr, uv_ip6_addr; address->text: all 2^8 group shapes x value classes, "
+             "sampled (thorough: all 2^16) byte shapes, IPv4-embedded neighbours, random; each through uv_inet_ntop/uv_ipX_name/"
              "uv_ip_name at every size 0..50 with guard bytes; uv__strscpy at every n <= len+2.  Monitor: "
              "agreement with glibc inet_pton/inet_ntop, ENOSPC iff text+NUL > size, untouched destination on "
              "failure, guards intact, round trip of the implementation's own output",
